@@ -1471,3 +1471,56 @@ Proof.
   destruct (debug_then_pattern m d Hm Hover) as [rows [d' [E1 [_ [E2 E3]]]]].
   rewrite HD in E1. inversion E1; subst rows. exists d'. auto.
 Qed.
+
+(* ---- the character sets, pinned to the documented tables (module docs of mock_display) --------------- *)
+Definition HEX_UPPER : list Z := [48; 49; 50; 51; 52; 53; 54; 55; 56; 57; 65; 66; 67; 68; 69; 70].  (* 0-9 A-F *)
+Definition RGB_CHARS : list Z := [75; 82; 71; 66; 89; 77; 67; 87].                                    (* K R G B Y M C W *)
+
+Fixpoint nodupb (l : list Z) : bool :=
+  match l with [] => true | x :: t => negb (existsb (Z.eqb x) t) && nodupb t end.
+
+Lemma nodupb_sound l : nodupb l = true -> NoDup l.
+Proof.
+  induction l as [|x t IH]; cbn [nodupb]; intros H; constructor.
+  - apply andb_true_iff in H. destruct H as [H _]. intros Hin.
+    assert (existsb (Z.eqb x) t = true) as Hex by (apply existsb_exists; exists x; split; [assumption|apply Z.eqb_refl]).
+    rewrite Hex in H. discriminate.
+  - apply IH. apply andb_true_iff in H. tauto.
+Qed.
+
+Lemma character_sets :
+  m_col2c map_BinaryColor = [(0, 46); (1, 35)] /\                                         (* '.' Off, '#' On *)
+  m_col2c map_Gray2 = zip (range 0 4) (firstn 4 HEX_UPPER) /\
+  m_col2c map_Gray4 = zip (range 0 16) HEX_UPPER /\
+  m_col2c map_Gray8 = zip (map (fun k => 17 * k) (range 0 16)) HEX_UPPER /\               (* multiples of 0x11 *)
+  Forall (fun m => charset m = RGB_CHARS /\ NoDup (colset m))
+         [map_Rgb332; map_Rgb444; map_Rgb555; map_Bgr555; map_Rgb565; map_Bgr565; map_Rgb888; map_Bgr888] /\
+  (* Rgb888: black, red, green, blue, yellow, magenta, cyan, white *)
+  colset map_Rgb888 = [0; 16711680; 65280; 255; 16776960; 16711935; 65535; 16777215] /\
+  all_mappings = [map_BinaryColor; map_Gray2; map_Gray4; map_Gray8; map_Rgb332; map_Rgb444; map_Rgb555; map_Bgr555;
+                  map_Rgb565; map_Bgr565; map_Rgb888; map_Bgr888].
+Proof.
+  repeat split; try reflexivity.
+  apply Forall_forall. intros m Hm. cbn [In] in Hm.
+  repeat (destruct Hm as [<-|Hm]; [split; [reflexivity|apply nodupb_sound; reflexivity]|]). contradiction.
+Qed.
+
+(* ---- restatements through get_pixel (for Properties/C20.v) ------------------------------------------- *)
+Lemma get_pixel_outside d p : ~ in_display p -> get_pixel d p = Ok None.
+Proof. intros H. rewrite get_pixel_gp, gp_outside by assumption. reflexivity. Qed.
+
+Lemma draw_pixel_effect d p c d' :
+  draw_pixel d p c = Ok d' ->
+  allow_overdraw d' = allow_overdraw d /\ allow_oob d' = allow_oob d /\
+  forall q, get_pixel d' q = if in_displayb p && point_eqb q p then Ok (Some c) else get_pixel d q.
+Proof.
+  intros H. apply draw_pixel_ok in H. destruct H as [Ha [Hb Hg]]. split; [assumption|]. split; [assumption|].
+  intros q. rewrite !get_pixel_gp, Hg. destruct (in_displayb p && point_eqb q p); reflexivity.
+Qed.
+
+Lemma diff_pixel' a b df p ca cb :
+  diff a b = Ok df -> get_pixel a p = Ok ca -> get_pixel b p = Ok cb ->
+  get_pixel df p = Ok (if in_displayb p then diff_color ca cb else None).
+Proof.
+  intros E Ha Hb. rewrite get_pixel_gp in Ha, Hb. inversion Ha; inversion Hb; subst. apply diff_pixel, E.
+Qed.
